@@ -293,4 +293,6 @@ func runC15(h *H) {
 	for i := 0; i < N; i++ {
 		h.DoRisky("json.oblivious", strconv.FormatUint(h.U64(), 10), strconv.Itoa(h.Intn(8)), h.Pick([]string{"val", "ptr"}))
 	}
+	// the Append-style string helpers on explicit destinations, against the slice model (c15helpers.go)
+	runC15Helpers(h)
 }
